@@ -261,14 +261,32 @@ class H5Stub:
         return FrameGroup(self.fm, f)
 
 
-LISTS = ["dts", "mus", "thetas", "screening_iterations"]
-OF = {"dts": "dt", "mus": "mu", "thetas": "theta", "screening_iterations": "screening_iterations"}
+def discover_lists(mut):
+    """which local list collects which per-step dataset: read off the real source (`<list>.append(np.array(<group>["<dataset>"]))` inside
+    DynamicsData.from_hdf5), so that the contract does not depend on how the locals are called.  -> {list name: dataset name}"""
+    import ast
+    import re
+    _, src = instrument.read_source(DATA, mut)
+    tree = ast.parse(src)
+    out = {}
+    for cls in [n for n in tree.body if isinstance(n, ast.ClassDef) and n.name == "DynamicsData"]:
+        for fn in [n for n in cls.body if isinstance(n, ast.FunctionDef) and n.name == "from_hdf5"]:
+            for node in ast.walk(fn):
+                if isinstance(node, ast.Call) and isinstance(node.func, ast.Attribute) and node.func.attr == "append" and isinstance(node.func.value, ast.Name) and node.args:
+                    m = re.search(r"\[['\"](\w+)['\"]\]", ast.unparse(node.args[0]))
+                    if m:
+                        out[node.func.value.id] = m.group(1)
+    return out
 
 
 def run_reader(mutate=None, prefixes=("C05.",)):
     mut = [(o, n) for (m, o, n) in (mutate or []) if m == DATA]
     V = vcm.VC()
     made = {}
+    OF = discover_lists(mut)
+    LISTS = sorted(OF)
+    if "dt" not in OF.values():
+        raise sym.Undecided("DynamicsData.from_hdf5: no list collecting the 'dt' records found (reader restructured?)")
 
     def newlist(name):
         made[name] = BlockList(name)
